@@ -300,9 +300,16 @@ def gen_pel(rng, *, eid=None, plid=None, bmc_id=None, creator=None, want_class=N
     creator = creator or rng.choice(["O", "O", "O", "B", "H", "M", "T", "P", "S", "K", "L", "C"])
     sev, action = gen_class(rng, want_class)
     eid = gen_id(rng, id_magnitude) if eid is None else eid
+    def stamp():
+        c = rng.random()
+        if c < 0.04:
+            return "00000000000000" + rng.choice(["00", "57"])      # unset clock
+        if c < 0.06:
+            return rng.choice(["ffffffffffffffff", "20aa13459961007f"])  # not BCD at all
+        return _bcd_time(rng)
     r = {"creator": creator, "comp": rng.choice([0x2000, 0x1000, 0xE500, 0x2C00, 0x3100, 0x4242, 0x5052, 0x41E9]),
-         "create": _bcd_time(rng), "commit": _bcd_time(rng),
-         "bmc_id": rng.randrange(1, 100000) if bmc_id is None else bmc_id,
+         "create": stamp(), "commit": stamp(),
+         "bmc_id": (rng.randrange(1, 100000) if rng.random() < 0.95 else rng.choice([0, 0xFFFFFFFF])) if bmc_id is None else bmc_id,
          "cssver": rng.choice([0, 1, 0x0102030405060708, rng.randrange(1 << 64)]),
          "plid": (eid if rng.random() < 0.6 else gen_id(rng, id_magnitude)) if plid is None else plid,
          "eid": eid,
